@@ -521,9 +521,9 @@ Entries(p) == {[name |-> q[Len(q)], kind |-> KindOf(q), size |-> IF IsFileT(tree
 
 \* the complete listing sent on the data connection, parsed by the peer
 Listing(s, t, entries) ==
-  LET r == Pre(ss[s], t)  w == r.w IN
   /\ At(t)
-  /\ IF w.v \in ListVerbs /\ w.st = "run" /\ w.sock
+  /\ \E r \in {PreAbor(ss[s]), Pre(ss[s], t)} : LET w == r.w IN
+     IF w.v \in ListVerbs /\ w.st = "run" /\ w.sock
        THEN /\ {[name |-> e.name, kind |-> e.kind, size |-> IF e.kind = "file" THEN e.size ELSE 0] : e \in entries}
                  = Entries(w.p)
             /\ Upd(s, [r EXCEPT !.w.listed = TRUE])
@@ -538,9 +538,9 @@ TeardownCause(r, t) ==
 
 \* the server closes one of the session's data sockets
 DataClose(s, t) ==
-  LET r == Pre(ss[s], t)  w == r.w IN
   /\ At(t)
-  /\ \/ r.xd > 0 /\ Upd(s, [r EXCEPT !.xd = @ - 1])
+  /\ \E r \in {PreAbor(ss[s]), Pre(ss[s], t)} : LET w == r.w IN
+     \/ r.xd > 0 /\ Upd(s, [r EXCEPT !.xd = @ - 1])
      \/ /\ w.sock
         /\ IF w.st = "run" /\ Moved(r) THEN Upd(s, [r EXCEPT !.w.sock = FALSE])
            ELSE IF TimedOut(r, t) THEN Upd(s, [r EXCEPT !.w.sock = FALSE, !.w.st = "dying", !.crash = TRUE])
@@ -573,7 +573,7 @@ CtlClose(s, t) ==
 
 Settled(s, gated) ==
   LET r == PreAbor(ss[s]) IN
-  /\ r.outq = <<>>
+  /\ (r.outq = <<>> \/ s \in gated)
   /\ r.xd = 0
   /\ (r.h.v # "" => s \in gated \/ r.h.pc = "try")
   /\ (r.w.v # "" => \/ r.w.st = "wait"
